@@ -32,6 +32,11 @@ type Case struct {
 	Limit int    `json:"max_input_length"`
 }
 
+type (
+	dS string
+	dB []byte
+)
+
 var defaults = map[string]int{"date": 10, "roman": 128, "sem": 1024, "size": 128, "uu": 45}
 
 func limitPtr(pkg string) *int {
@@ -92,6 +97,10 @@ func parseCalls(pkg string, in []byte, rule int) []res {
 		add("DefaultParser[string]", d == date.Date{}, err)
 		d, err = date.DefaultParser(in, date.Rule(rule))
 		add("DefaultParser[[]byte]", d == date.Date{}, err)
+		d, err = date.DefaultParser(dS(s), date.Rule(rule))
+		add("DefaultParser[derived string]", d == date.Date{}, err)
+		d, err = date.DefaultParser(dB(in), date.Rule(rule))
+		add("DefaultParser[derived []byte]", d == date.Date{}, err)
 		var u date.Date
 		err = u.UnmarshalText(in)
 		add("UnmarshalText", u == date.Date{}, err)
@@ -102,6 +111,10 @@ func parseCalls(pkg string, in []byte, rule int) []res {
 		add("DefaultParser[[]byte]", n == 0, err)
 		add("Valid[string]", true, roman.Valid(s, roman.Rule(rule)))
 		add("Valid[[]byte]", true, roman.Valid(in, roman.Rule(rule)))
+		add("Valid[derived string]", true, roman.Valid(dS(s), roman.Rule(rule)))
+		add("Valid[derived []byte]", true, roman.Valid(dB(in), roman.Rule(rule)))
+		n, err = roman.DefaultParser(dS(s), roman.Rule(rule))
+		add("DefaultParser[derived string]", n == 0, err)
 		var u roman.Number
 		err = u.UnmarshalText(in)
 		add("UnmarshalText", u == 0, err)
@@ -123,6 +136,10 @@ func parseCalls(pkg string, in []byte, rule int) []res {
 		add("ParseTag[string]", v == z, err)
 		v, err = sem.ParseTag(in)
 		add("ParseTag[[]byte]", v == z, err)
+		v, err = sem.Parse(dS(s))
+		add("Parse[derived string]", v == z, err)
+		v, err = sem.ParseVersion(dB(in))
+		add("ParseVersion[derived []byte]", v == z, err)
 		var u sem.Ver
 		err = u.UnmarshalText(in)
 		add("UnmarshalText", u == z, err)
@@ -131,6 +148,10 @@ func parseCalls(pkg string, in []byte, rule int) []res {
 		add("DefaultParser[string]", n == 0, err)
 		n, err = size.DefaultParser(in, size.Rule(rule))
 		add("DefaultParser[[]byte]", n == 0, err)
+		n, err = size.DefaultParser(dS(s), size.Rule(rule))
+		add("DefaultParser[derived string]", n == 0, err)
+		n, err = size.DefaultParser(dB(in), size.Rule(rule))
+		add("DefaultParser[derived []byte]", n == 0, err)
 		var u size.Size
 		err = u.UnmarshalText(in)
 		add("UnmarshalText", u == 0, err)
@@ -142,6 +163,10 @@ func parseCalls(pkg string, in []byte, rule int) []res {
 		add("DefaultParser[string]", id == uu.ID{}, err)
 		id, err = uu.DefaultParser(in, uu.Rule(rule))
 		add("DefaultParser[[]byte]", id == uu.ID{}, err)
+		id, err = uu.DefaultParser(dS(s), uu.Rule(rule))
+		add("DefaultParser[derived string]", id == uu.ID{}, err)
+		id, err = uu.DefaultParser(dB(in), uu.Rule(rule))
+		add("DefaultParser[derived []byte]", id == uu.ID{}, err)
 		var u uu.ID
 		err = u.UnmarshalText(in)
 		add("UnmarshalText", u == uu.ID{}, err)
@@ -555,6 +580,13 @@ func TestCheck(t *testing.T) {
 							c := Case{Pkg: pkg, A: vkit.B(a), B: vkit.B(a[:n/2]), Rule: []int{0, 6, -1}[bv%3], Limit: lim}
 							judge(c, w)
 							w.EvalRandom(vkit.Hash64(pkg, string(a), strconv.Itoa(lim)), true)
+							if n >= 3 && (pkg == "size" || bv%16 == 0) {
+								// the same run as the content of a JSON string / behind a valid start
+								q := append(append([]byte{'"', '1'}, a[:n-3]...), '"')
+								c = Case{Pkg: pkg, A: vkit.B(q), B: vkit.B(a[:n/2]), Rule: 6, Limit: lim}
+								judge(c, w)
+								w.EvalRandom(vkit.Hash64(pkg, string(q), strconv.Itoa(lim)), true)
+							}
 						}
 					}
 					restore()
